@@ -12,12 +12,15 @@ Proof.
   rewrite andb_true_iff, N.ltb_lt, N.leb_le. tauto.
 Qed.
 
+Lemma documented_window n : documented_len_ok n = true <-> (10 < n <= 256)%N.
+Proof. unfold documented_len_ok. rewrite andb_true_iff, N.ltb_lt, N.leb_le. tauto. Qed.
+
 Lemma entry_of_len n ident e : In e (entry_of n ident) ->
   (10 < N.of_nat (String.length (le_value e)) <= 256)%N /\ str_value n = Some (le_value e) /\ le_span e = span_of n.
 Proof.
   unfold entry_of. destruct (str_value n) as [v|]; [|intros []].
-  destruct (gen_len_ok (N.of_nat (String.length v))) eqn:E; [|intros []].
-  intros [<-|[]]. simpl. split; [apply len_window; exact E | auto].
+  destruct (documented_len_ok (N.of_nat (String.length v))) eqn:E; [|intros []].
+  intros [<-|[]]. simpl. split; [apply documented_window; exact E | auto].
 Qed.
 
 Lemma here_len n e : In e (here n) -> (10 < N.of_nat (String.length (le_value e)) <= 256)%N.
